@@ -5,6 +5,9 @@ Three streams:
   write        write_string with the default stack: library and format untouched, two writes give the same text
   heap         correspondence of the Coq heap model of the FRAMEWORK (Model/HeapMw.v) with the real framework
                (see c07_heap.py)
+  rep / heaprep  value-keyed state and repeated configurations: the same value text in several fields, entries and libraries x
+               stacks holding one middleware class 2-3 times with different option sets, on libraries that already hold
+               structured values; every result also checked against everything handed out by earlier calls (see c07_rep.py)
 """
 import copy
 import json
@@ -23,7 +26,17 @@ RULE = ("libraries parsed (default stack, empty stack, or with name / month / ke
         "subclass), format and library checked after every call whether it returned or raised, every text compared with what a "
         "fresh equal format gives; heap stream: the real framework with 9 probe bodies + Resolve/Sort/LibraryMiddleware AND every "
         "shipped block middleware class x option set against its Coq body model (Model/HeapBodies.v), both modes, "
-        "against the Coq model on the same initial heap. distinct = distinct (document, parse option, stack, mode); non-trivial = "
+        "against the Coq model on the same initial heap; rep / heaprep (props/c07_rep.py): 1-2 documents over ONE small pool of "
+        "persons, co-author lists, titles, months and @string contents (the same value text in several fields of an entry, in "
+        "several entries and in both documents; the second document is the same text or another arrangement of the pool) x "
+        "an earlier middleware run (parse-time name middlewares and / or 0-2 prep stages, each copy or in-place) x stacks of 2-3 "
+        "copy-mode middlewares in which one class occurs 2-3 times with DIFFERENT option sets (name middlewares x 9 name_fields "
+        "tuples, planned so that each stage meets the value types it expects; two field / block sorters with different orders; "
+        "two AddEnclosing with different defaults around RemoveEnclosing; LaTeX middlewares with different switches; month / "
+        "Resolve chains), both documents in one process with fresh or with shared middleware instances; each judged call is "
+        "checked against its input AND against every library handed out earlier in the case (parsed libraries, prep results, "
+        "earlier results on either document), and every library handed out is compared at the end with the copy taken when it "
+        "was handed out; heaprep = the single-document block-middleware part of that class against the Coq heap model. distinct = distinct (document, parse option, stack, mode); non-trivial = "
         "the library has at least one entry or string block, i.e. some mutable field/value/metadata object that could be shared")
 TRUSTED = ["heap snapshotter harness/heapsnap.py: walks __dict__, list, dict, set, tuple; fails closed on any other object type; "
            "objects reachable only through C-level state or closures would be invisible (none in the shipped classes)",
@@ -85,7 +98,10 @@ def all_specs():
 
 
 SPECS = all_specs()
-NAME_FIELDS = [("author", "editor", "translator"), ("author", "title", "Author")]
+NAME_FIELDS = [("author", "editor", "translator"), ("author", "title", "Author"),
+               # option sets of the repeated name middlewares (stream 'rep', props.c07_rep); SPECS uses 0 and 1 only
+               ("author",), ("editor",), ("translator", "author"), ("editor", "translator"), ("translator",), ("title", "author"),
+               ("editor", "author")]
 PARSE_OPTS = ["default", "raw", "sep", "split", "split_norm", "month", "latexdec", "sortcustom"]
 FORMATS = [{}, {"value_column": "auto"}, {"value_column": 12}, {"indent": "  ", "trailing_comma": True},
            {"value_column": "auto", "block_separator": "\n", "indent": ""}, {"parsing_failed_comment": "% failed {n}"},
@@ -307,7 +323,15 @@ def generate(rng, tier):
     for _ in range(120 if quick else 6000):
         cases.append({"stream": "wseq", "input": gen_wseq(rng)})
     cases += H.generate(rng, tier, gen_text, PARSE_OPTS)
+    # value-keyed state and repeated configurations (drawn last: the streams above are the same as before for a given seed)
+    import props.c07_rep as R
+    cases += R.generate(rng, tier, _this())
     return cases
+
+
+def _this():
+    import props.c07 as P
+    return P
 
 
 # ---------------------------------------------------------------------------------------------- oracle
@@ -329,11 +353,13 @@ def in_deepcopy(e):
     return False
 
 
-def check_stage(lib, run, what):
+def check_stage(lib, run, what, registry=None):
     """Run `run(lib)`; return (result, problems, stats).  The property on one call:
        (a) the input library is structurally equal to its prior deep copy and consists of the same objects,
-       (b) no mutable object reachable from the result is an object of the input graph.
-       Both graphs include what the error objects of failed blocks hold (heapsnap passes through exception objects)."""
+       (b) no mutable object reachable from the result is an object of the input graph,
+       (c) with `registry` (id -> object, the objects kept alive by the caller): nor an object of any library handed out by
+           an earlier call in this process (parsed libraries, earlier results on this and on other libraries).
+       All graphs include what the error objects of failed blocks hold (heapsnap passes through exception objects)."""
     import heapsnap as HS
     memo = {}
     snap = HS.clone(lib, memo)
@@ -377,19 +403,37 @@ def check_stage(lib, run, what):
         problems.append("%s: input library now consists of other objects" % what)
     elif eq_applies and not (lib.blocks == snap.blocks and lib.entries_dict == snap.entries_dict and lib.strings_dict == snap.strings_dict):
         problems.append("%s: input library != its prior deep copy (by __eq__)" % what)
-    sh = shares(ids_before, res)
+    out_ids = HS.reachable([res])
+    sh = [x for i, x in out_ids.items() if i in ids_before]
     if sh:
         kinds = sorted(set(HS.kind_of(x) for x in sh))
         problems.append("%s: result shares %d mutable object(s) with its input: %s (e.g. %s)" %
                         (what, len(sh), ",".join(kinds), type(sh[0]).__name__))
+    if registry:
+        old = [x for i, x in out_ids.items() if i in registry and i not in ids_before]
+        if old:
+            kinds = sorted(set(HS.kind_of(x) for x in old))
+            problems.append("%s: result shares %d mutable object(s) with a library handed out by an EARLIER call (not its input): "
+                            "%s (e.g. %s %r)" % (what, len(old), ",".join(kinds), type(old[0]).__name__, repr(old[0])[:80]))
     return res, problems, len(ids_before)
+
+
+def _rep_count(stages):
+    import props.c07_rep as R
+    return R.repeated([s[2] for s in stages if s[0] == "shipped" and not s[1]])
 
 
 def impl(case):
     inp = case["input"]
     if inp["kind"] == "heap":
         import props.c07_heap as H
-        return H.impl(case, parse)
+        rec = H.impl(case, parse)
+        if inp.get("rep_family"):
+            rec["tags"] = list(rec.get("tags", [])) + ["heaprep_" + inp["rep_family"], "heaprep_sameclass_x%d" % _rep_count(inp["op"][1])]
+        return rec
+    if inp["kind"] == "rep":
+        import props.c07_rep as R
+        return R.impl(case, _this())
     if inp["kind"] == "wseq":
         return impl_wseq(inp)
     import heapsnap as HS
